@@ -146,6 +146,8 @@ pub struct Core {
     pub last_removed_seen: Vec<Option<usize>>,
     pub sentinel_addr: usize,
     pub c03_checks: u64,
+    pub c08_checks: u64,
+    pub c08_recycled_checks: u64,
     /// free list as walked (raw reads) at the moment a hang was declared
     pub hang_list: Vec<(u32, u32, u32)>,
     /// unlink CASes that succeeded on a predecessor that was not reachable from the sentinel at
@@ -235,6 +237,8 @@ impl Core {
             last_removed_seen: vec![],
             sentinel_addr: 0,
             c03_checks: 0,
+            c08_checks: 0,
+            c08_recycled_checks: 0,
             hang_list: vec![],
             stale_unlinks: vec![],
         }
@@ -400,9 +404,12 @@ fn yield_point(me: usize, pend: Option<&Pending>) {
     c.sched_hash = mix(c.sched_hash, next as u64);
     if next != me {
         c.preemptions += 1;
-        if let Some(p) = pend {
+        {
             let o = &c.op[me];
-            let key = format!("{}#{}:{:?}", o.kind, o.events.min(40), p.access);
+            let key = match pend {
+                Some(p) => format!("{}#{}:{:?}", o.kind, o.events.min(40), p.access),
+                None => format!("{}#{}:BeforeZeroing", o.kind, o.events.min(40)),
+            };
             *c.windows.entry(key).or_insert(0) += 1;
         }
         c.current = next;
@@ -613,6 +620,12 @@ fn hook_zeroed(addr: usize, len: usize) {
     let me = TID.with(|t| t.get());
     if me == usize::MAX || std::thread::panicking() || IN_MONITOR.with(|m| m.get()) {
         return;
+    }
+    // The notification arrives before the memset: a scheduling point here is a preemption between the
+    // atomic access that preceded the zeroing and the zeroing itself (without it a thread could only be
+    // stopped in front of its atomic accesses, never between one of them and a plain write that follows).
+    if me != MAIN {
+        yield_point(me, None);
     }
     let mut c = lock();
     if !c.active || me >= c.n || addr < c.base || addr + len > c.base + c.cap {
